@@ -14,6 +14,9 @@ Record wf_class_facts (D : mdesc) (c : cdesc) : Prop := {
   wfc_base : cd_base c = None;
   wfc_fields : forall f, In f (cd_fields c) -> wf_field D f = true;
   wfc_names : distinct (map fd_name (cd_fields c)) = true;
+  wfc_elem_names : distinct (map field_local (filter (is_kind KElement) (cd_fields c))) = true;
+  wfc_one_text : (length (filter (is_kind KText) (cd_fields c)) <=? 1)%nat = true;
+  wfc_attr_names : distinct (map (fun f => field_qname f None) (filter (is_kind KAttribute) (cd_fields c))) = true;
   wfc_reserved : forall f, In f (cd_fields c) -> is_kind KAttribute f = true -> reserved_attr (field_qname f None) = false
 }.
 
@@ -66,6 +69,7 @@ Section TA.
     rc_content : get_element_vars meta = filter (fun v => negb (v_is KAttribute v)) (class_vars cd)
   }.
   Hypothesis Hreal : forall cd, In cd (md_classes D) ->
+                     match class_P cd with Some n => plain_ns n = true | None => True end ->
                      exists meta, u_meta u (cd_id cd) = Some meta /\ realises_class cd meta.
   Hypothesis Henums : u_enums u = md_enums D.
 
@@ -925,7 +929,7 @@ Section TA.
     { unfold cns, class_ns. pose proof (wfc_meta_ns D cd W) as Hm. destruct (cd_meta_ns cd) as [[|x r]|]; try exact I; [exact Hm|exact Hctx]. }
     assert (Hdecl : forall f, decl_ns cns (cd, f) = cns).
     { intros f. unfold decl_ns, cns, class_ns. cbn [fst]. destruct (cd_meta_ns cd); reflexivity. }
-    destruct (Hreal cd Hcd) as [meta [Hm RC]]. rewrite Hid in Hm.
+    destruct (Hreal cd Hcd HoP) as [meta [Hm RC]]. rewrite Hid in Hm.
     (* the element's name *)
     set (q := match over with Some q => q | None => clark cns (class_local cd) end).
     assert (Hlocal : class_local cd <> []).
@@ -1020,4 +1024,31 @@ Section TA.
       rewrite app_comm_cons, app_assoc. apply closed_app; [reflexivity|discriminate].
   Qed.
 
+  (* ---------------------------------------------------------------- the whole document *)
+  Theorem generate_matches_spec o :
+    typed_value D (S (sdepth o)) o = true ->
+    cache_consistent D pns (S (sdepth o)) None None o = true ->
+    inherit_consistent D (S (sdepth o)) None None None o = true ->
+    token_lists_ok D (S (sdepth o)) o = true ->
+    (sdepth o <= vdepth o)%nat ->
+    exists evs, generate ign cv u o = Ok evs /\ norm_nil evs = spec_events cv D ign o.
+  Proof.
+    intros H1 H2 H3 H4 Hd.
+    destruct o as [| | |c fs| | |]; try discriminate H1.
+    destruct (run_object (S (sdepth (VObj c fs))) (gen_fuel (VObj c fs)) c fs None None None false) as [evs [E1 [E2 _]]].
+    - unfold gen_fuel. lia.
+    - intros q E. discriminate E.
+    - exact I.
+    - unfold good. apply andb_true_iff; split; [apply andb_true_iff; split; [apply andb_true_iff; split|]|]; assumption.
+    - exists evs. split; [exact E1|exact E2].
+  Qed.
+
 End TA.
+
+(* sdepth (the specification's depth) never exceeds the model's vdepth *)
+Lemma sdepth_le_vdepth : forall v, (sdepth v <= vdepth v)%nat.
+Proof.
+  fix IH 1. intros [| |t l|c fs|q t tl a ch|q x ty|m]; cbn [sdepth vdepth]; try lia.
+  - apply le_n_S. induction l as [|x l IHl]; [lia|]. pose proof (IH x). lia.
+  - apply le_n_S. induction fs as [|[k x] fs IHl]; [lia|]. pose proof (IH x). lia.
+Qed.
